@@ -77,6 +77,11 @@ pub struct Cfg {
     pub newton_tol: Option<f64>,
     /// dense_output flag of the low-level builders (None = their documented default, true)
     pub low_dense: Option<bool>,
+    /// leave rtol / atol at the Options builder's own defaults (SciPy's 1e-3 / 1e-6)
+    pub default_rtol: bool,
+    pub default_atol: bool,
+    /// low-level Radau only: the classical step size controller (builder option predictive(false))
+    pub radau_classical: bool,
 }
 
 impl Cfg {
@@ -102,6 +107,9 @@ impl Cfg {
             keep_log: false,
             newton_tol: None,
             low_dense: None,
+            default_rtol: false,
+            default_atol: false,
+            radau_classical: false,
         }
     }
     pub fn tol(mut self, rtol: f64, atol: f64) -> Self {
@@ -128,8 +136,8 @@ impl Cfg {
     pub fn options(&self) -> Options {
         Options::builder()
             .method(self.method)
-            .rtol(self.rtol.to())
-            .atol(self.atol.to())
+            .maybe_rtol(if self.default_rtol { None } else { Some(self.rtol.to()) })
+            .maybe_atol(if self.default_atol { None } else { Some(self.atol.to()) })
             .maybe_max_steps(self.max_steps)
             .maybe_t_eval(self.t_eval.clone())
             .maybe_first_step(self.first_step)
@@ -296,7 +304,7 @@ pub fn run_lowlevel(
             s.solve(&probe, c.x0, &c.y0, c.xend, rtol, atol, Some(&mut so))
         }
         Method::RADAU => {
-            let b = RADAU::builder().maybe_dense_output(c.low_dense).maybe_max_step(c.max_step).maybe_first_step(c.first_step).jac_storage(c.jac_storage.clone()).maybe_newton_tol(c.newton_tol);
+            let b = RADAU::builder().maybe_dense_output(c.low_dense).maybe_max_step(c.max_step).maybe_first_step(c.first_step).jac_storage(c.jac_storage.clone()).maybe_newton_tol(c.newton_tol).predictive(!c.radau_classical);
             let s = match (c.max_steps, set_mass_storage) {
                 (Some(m), true) => b.max_steps(m).mass_storage(c.mass_storage.clone()).build(),
                 (Some(m), false) => b.max_steps(m).build(),
